@@ -1,7 +1,7 @@
 SPECIFICATION Spec
 CONSTANTS KeyWidth = 32
           MaxZeros = 4
-          Roles = {"priv", "privpub", "trusted"}
+          Roles = {"priv", "privpub", "trusted", "sharedown"}
           Padded = FALSE
           Nodes = {1, 2}
           Passwords = {"p1", "p2", "p3"}
